@@ -318,9 +318,18 @@ pub fn exec(sc: &Sc) -> Outcome {
 }
 
 pub fn scenarios(tier: Tier) -> Vec<Sc> {
-    let thorough = tier == Tier::Thorough;
+    let thorough = tier >= Tier::Thorough;
     // valid session ids (client-initiated bidirectional) that do not name the live session (which is 0)
-    let foreign: Vec<u64> = vec![4, 8, 4 << 20, rc::VARINT_MAX - 3];
+    let mut foreign: Vec<u64> = vec![4, 8, 4 << 20, rc::VARINT_MAX - 3];
+    if tier >= Tier::Deep {
+        // one valid foreign session id per bit position and each side of every varint-length boundary
+        for k in 2..62u32 {
+            foreign.push(1u64 << k);
+        }
+        foreign.extend([12, 60, 64, 16380, 16384, (1 << 30) - 4, 1 << 30, (1u64 << 60) - 4, 1u64 << 60]);
+        foreign.sort();
+        foreign.dedup();
+    }
     let mut out = vec![];
     for role in [true, false] {
         for &sid in &foreign {
@@ -364,7 +373,7 @@ pub fn scenarios(tier: Tier) -> Vec<Sc> {
             }
         }
         // bursts of foreign items of all kinds and sessions, interleaved with live ones (crosses the queue capacities 1 and 4)
-        for n in [2usize, 5, 9] {
+        for n in if tier >= Tier::Deep { vec![2usize, 3, 4, 5, 6, 7, 8, 9, 12, 17, 30, 60] } else { vec![2usize, 5, 9] } {
             let mut items = vec![];
             for i in 0..n {
                 items.push(Item { kind: (i % 3) as u8, sid: foreign[i % foreign.len()], live: false, ending: (i % 3) as u8 % if i % 3 == 2 { 1 } else { 3 }, payload_len: 7 });
